@@ -23,7 +23,7 @@ import (
 
 func init() {
 	props["C20"] = &propDef{
-		rule: "cases = scenarios: a pool of shared read-only inputs (clear and cenc/cbcs-encrypted fragmented files built from AVC/HEVC/AAC samples, generated progressive files, repo test files, single-box blobs, AC-3/E-AC-3 init segments, one shared table of 8-byte IVs) x tasks {decode via io.Reader / slice reader / lazy mdat, Info at several levels, re-encode, sample extraction + NAL inspection, in-place Annex B conversion on the goroutine's own decoded samples, encrypt (InitProtect+EncryptFragment, 16-byte IVs and 8-byte IVs cut from the shared table), AC-3/E-AC-3 channel-layout helpers, decrypt (DecryptInit+DecryptSegment), DecodeBox/DecodeBoxSR}; every task is first run alone, then all tasks of the scenario run in parallel goroutines (several rounds, GOMAXPROCS 1..16) under the race detector; checks: each goroutine's digest equals its solo digest, the shared input bytes are unchanged, and the race detector reports nothing inside mp4ff; non-trivial = distinct (task, input) pair",
+		rule: "cases = scenarios: a pool of shared read-only inputs (clear and cenc/cbcs-encrypted fragmented files built from AVC/HEVC/AAC samples, protected streams in every IV layout {cenc per-sample IV 16/8, cbcs constant IV 16/8, cbcs per-sample IV 16/8} both as one file and as separate init-segment / media-segment buffers (with the clear segments next to them), generated progressive files, repo test files, single-box blobs, AC-3/E-AC-3 init segments, one shared table of 8-byte IVs) x tasks {decode via io.Reader / slice reader / lazy mdat, Info at several levels, re-encode, sample extraction + NAL inspection, in-place Annex B conversion on the goroutine's own decoded samples, encrypt (InitProtect+EncryptFragment, 16-byte IVs and 8-byte IVs cut from the shared table), AC-3/E-AC-3 channel-layout helpers, decrypt (DecryptInit+DecryptSegment), decrypt pipeline (shared init decoded as file or box by box with either decoder, DecryptInit, shared media segments decoded with either decoder, DecryptFragment / DecryptSegment), encrypt pipeline (ExtractInitProtectData of the shared protected init + EncryptFragment of the shared clear segments), DecodeBox/DecodeBoxSR}; every input slice handed to the library is a window with cap > len into an arena with guard bytes behind each slice; every task is first run alone, then all tasks of the scenario run in parallel goroutines (several rounds, GOMAXPROCS 1..16) under the race detector; checks: each goroutine's digest equals its solo digest, the shared input bytes and the guard bytes behind them are unchanged, and the race detector reports nothing inside mp4ff; non-trivial = distinct (task, input) pair",
 		gen:  genC20,
 		exec: execC20,
 	}
@@ -34,12 +34,91 @@ type c20Input struct {
 	data   []byte
 	key    []byte // for decrypt
 	scheme string // "" clear | cenc | cbcs
-	kind   string // frag | prog | box
+	kind   string // frag | prog | box | pipe
+	// kind "pipe": a protected stream as separate shared buffers (init segment, media segments)
+	init        []byte
+	segs        [][]byte
+	clearSegs   [][]byte // the same media segments before encryption (input of the encrypt pipeline)
+	clearDigest string   // digest of the clear sample payloads the stream was made from (non-vacuity count only)
+	// every byte slice above is a window into ONE arena: [part | guard | part | guard ...]; each window has
+	// cap > len (its capacity runs over the guard bytes and the parts behind it), so an append / a write past the
+	// end through a retained sub-slice lands in memory the check compares afterwards
+	arena, ref []byte
+	layout     []c20Part
 }
 
-// c20IVTable: 8-byte IVs cut from ONE shared table (each sub-slice has spare capacity behind it): shared, read-only input
-var c20IVTable = []byte{0xa1, 2, 3, 4, 5, 6, 7, 8, 0xb1, 12, 13, 14, 15, 16, 17, 18, 0xc1, 22, 23, 24, 25, 26, 27, 28, 0xd1, 32, 33, 34, 35, 36, 37, 38,
-	0xe1, 42, 43, 44, 45, 46, 47, 48, 0xf1, 52, 53, 54, 55, 56, 57, 58, 0x91, 62, 63, 64, 65, 66, 67, 68, 0x81, 72, 73, 74, 75, 76, 77, 78}
+type c20Part struct {
+	what     string
+	off, len int
+}
+
+const c20GuardLen = 48
+
+// seal moves all byte slices of the input into one arena with guard bytes behind each and keeps a reference copy
+func (in *c20Input) seal() *c20Input {
+	parts := []*[]byte{&in.data, &in.init}
+	names := []string{"data", "init"}
+	for i := range in.segs {
+		parts = append(parts, &in.segs[i])
+		names = append(names, fmt.Sprintf("segment %d", i))
+	}
+	for i := range in.clearSegs {
+		parts = append(parts, &in.clearSegs[i])
+		names = append(names, fmt.Sprintf("clear segment %d", i))
+	}
+	parts = append(parts, &in.key)
+	names = append(names, "key")
+	total := 0
+	for _, p := range parts {
+		if *p != nil {
+			total += len(*p) + c20GuardLen
+		}
+	}
+	in.arena = make([]byte, total)
+	in.layout = nil
+	off := 0
+	for i, p := range parts {
+		if *p == nil {
+			continue
+		}
+		n := copy(in.arena[off:], *p)
+		in.layout = append(in.layout, c20Part{names[i], off, n})
+		for k := 0; k < c20GuardLen; k++ {
+			in.arena[off+n+k] = byte(0xc3 ^ (k * 29))
+		}
+		*p = in.arena[off : off+n] // len n, capacity up to the end of the arena
+		off += n + c20GuardLen
+	}
+	in.ref = cp(in.arena)
+	return in
+}
+
+// mutated: "" when every shared byte (parts and guards) still has its original value, else where the first change is
+func (in *c20Input) mutated() string {
+	if bytes.Equal(in.arena, in.ref) {
+		return ""
+	}
+	for i := range in.arena {
+		if in.arena[i] != in.ref[i] {
+			for _, p := range in.layout {
+				if i >= p.off && i < p.off+p.len {
+					return fmt.Sprintf("%s of %s: byte %d (of %d) changed %02x -> %02x", p.what, in.name, i-p.off, p.len, in.ref[i], in.arena[i])
+				}
+				if i >= p.off+p.len && i < p.off+p.len+c20GuardLen {
+					return fmt.Sprintf("%s of %s: byte %d BEHIND the %d-byte slice handed to the library (within its capacity) changed %02x -> %02x", p.what, in.name, i-p.off-p.len, p.len, in.ref[i], in.arena[i])
+				}
+			}
+		}
+	}
+	return "changed"
+}
+
+// c20IVTable: 8-byte IVs cut from ONE shared table (each sub-slice has spare capacity behind it: the following IVs, and
+// 16 guard bytes behind the last one): shared, read-only input
+var c20IVTableRef = []byte{0xa1, 2, 3, 4, 5, 6, 7, 8, 0xb1, 12, 13, 14, 15, 16, 17, 18, 0xc1, 22, 23, 24, 25, 26, 27, 28, 0xd1, 32, 33, 34, 35, 36, 37, 38,
+	0xe1, 42, 43, 44, 45, 46, 47, 48, 0xf1, 52, 53, 54, 55, 56, 57, 58, 0x91, 62, 63, 64, 65, 66, 67, 68, 0x81, 72, 73, 74, 75, 76, 77, 78,
+	0xc3, 0xde, 0xf9, 0x94, 0xb7, 0x52, 0x6d, 0x08, 0x2b, 0xc6, 0xe1, 0xfc, 0x9f, 0xba, 0x55, 0x70}
+var c20IVTable = cp(c20IVTableRef)
 
 type c20Task struct {
 	op string
@@ -215,6 +294,83 @@ func runTask(t c20Task) (out string) {
 			return "enc err: " + err.Error()
 		}
 		return digest(eb.Bytes())
+	case "pipe": // pipe/<init path>/<segment path>/<frag|seg>: the decrypt pipeline on separate shared init and media segment buffers
+		init, err := c20DecodeInit(f[1], t.in.init)
+		if err != nil {
+			return "init err: " + err.Error()
+		}
+		di, err := mp4.DecryptInit(init)
+		if err != nil {
+			return "decryptinit err: " + err.Error()
+		}
+		var eb bytes.Buffer
+		if err := init.Encode(&eb); err != nil {
+			return "init enc err: " + err.Error()
+		}
+		var payload [][]byte
+		for _, sb := range t.in.segs {
+			sf, err := decodeBy(f[2], sb)
+			if err != nil {
+				return "segment err: " + err.Error()
+			}
+			for _, s := range sf.Segments {
+				if f[3] == "seg" {
+					if err := mp4.DecryptSegment(s, di, t.in.key); err != nil {
+						return "decrypt err: " + err.Error()
+					}
+				} else {
+					for _, fr := range s.Fragments {
+						if err := mp4.DecryptFragment(fr, di, t.in.key); err != nil {
+							return "decrypt err: " + err.Error()
+						}
+					}
+				}
+				for _, fr := range s.Fragments {
+					fss, err := fr.GetFullSamples(init.Moov.Mvex.Trex)
+					if err != nil {
+						return "samples err: " + err.Error()
+					}
+					for _, fs := range fss {
+						payload = append(payload, fs.Data)
+					}
+				}
+				if err := s.Encode(&eb); err != nil {
+					return "enc err: " + err.Error()
+				}
+			}
+		}
+		return fmt.Sprintf("%s clear=%v", digest(eb.Bytes()), digest(payload...) == t.in.clearDigest)
+	case "pipeenc": // pipeenc/<init path>/<segment path>: protection data taken from the shared protected init, clear shared segments encrypted
+		init, err := c20DecodeInit(f[1], t.in.init)
+		if err != nil {
+			return "init err: " + err.Error()
+		}
+		ipd, err := mp4.ExtractInitProtectData(init)
+		if err != nil {
+			return "extract err: " + err.Error()
+		}
+		iv := []byte{0x51, 2, 3, 4, 5, 6, 7, 0xf8, 0, 0, 0, 0, 0, 0, 0, 0}
+		if ipd.Scheme == "cbcs" && ipd.Tenc.DefaultConstantIV != nil {
+			iv = ipd.Tenc.DefaultConstantIV // the stream's constant IV, as decoded (8 or 16 bytes)
+		}
+		var eb bytes.Buffer
+		for _, sb := range t.in.clearSegs {
+			sf, err := decodeBy(f[2], sb)
+			if err != nil {
+				return "segment err: " + err.Error()
+			}
+			for _, s := range sf.Segments {
+				for _, fr := range s.Fragments {
+					if err := mp4.EncryptFragment(fr, t.in.key, iv, ipd); err != nil {
+						return "encrypt err: " + err.Error()
+					}
+				}
+				if err := s.Encode(&eb); err != nil {
+					return "enc err: " + err.Error()
+				}
+			}
+		}
+		return digest(eb.Bytes())
 	case "chaninfo": // AC-3 / E-AC-3 configuration boxes: channel layout helpers and Info
 		file, err := decodeBy(f[1], in)
 		if err != nil {
@@ -254,6 +410,203 @@ func runTask(t c20Task) (out string) {
 		return digest(ib.Bytes(), eb.Bytes())
 	}
 	return "bad-op"
+}
+
+// c20DecodeInit: an init segment from shared bytes, as a file (rd | sr) or box by box (boxrd | boxsr)
+func c20DecodeInit(path string, in []byte) (*mp4.InitSegment, error) {
+	if path == "rd" || path == "sr" {
+		f, err := decodeBy(path, in)
+		if err != nil {
+			return nil, err
+		}
+		if f.Init == nil || f.Init.Moov == nil || f.Init.Moov.Mvex == nil {
+			return nil, fmt.Errorf("no init segment")
+		}
+		return f.Init, nil
+	}
+	init := mp4.NewMP4Init()
+	sr := bits.NewFixedSliceReader(in)
+	rd := bytes.NewReader(in)
+	for pos := uint64(0); pos < uint64(len(in)); {
+		var b mp4.Box
+		var err error
+		if path == "boxsr" {
+			b, err = mp4.DecodeBoxSR(pos, sr)
+		} else {
+			b, err = mp4.DecodeBox(pos, rd)
+		}
+		if err != nil {
+			return nil, err
+		}
+		if b.Size() == 0 {
+			return nil, fmt.Errorf("empty box")
+		}
+		init.AddChild(b)
+		pos += b.Size()
+	}
+	if init.Moov == nil || init.Moov.Mvex == nil {
+		return nil, fmt.Errorf("no init segment")
+	}
+	return init, nil
+}
+
+// c20Variants: scheme x where the IV lives x IV size.  InitProtect/EncryptFragment themselves only write 16-byte
+// IVs (api); the other layouts ISO/IEC 23001-7 allows (8-byte per-sample IVs, 8-byte constant IV, cbcs with
+// per-sample IVs) are written with the exported building blocks, see c20EncryptFragment.
+var c20Variants = []struct {
+	name, scheme string
+	ivSize       int
+	perSample    bool
+	api          bool
+}{
+	{"cenc-iv16", "cenc", 16, true, true},
+	{"cenc-iv8", "cenc", 8, true, false},
+	{"cbcs-civ16", "cbcs", 16, false, true},
+	{"cbcs-civ8", "cbcs", 8, false, false},
+	{"cbcs-piv16", "cbcs", 16, true, false},
+	{"cbcs-piv8", "cbcs", 8, true, false},
+}
+
+// c20EncryptFragment: EncryptFragment's steps with the exported pieces (ProtFunc, CryptSampleCenc / EncryptSampleCbcs,
+// saiz/saio/senc constructors) for per-sample IVs of ivSize bytes
+func c20EncryptFragment(fr *mp4.Fragment, key, iv []byte, ivSize int, ipd *mp4.InitProtectData) error {
+	if len(fr.Moof.Trafs) != 1 || len(fr.Moof.Traf.Truns) != 1 {
+		return fmt.Errorf("one traf with one trun expected")
+	}
+	traf := fr.Moof.Traf
+	fss, err := fr.GetFullSamples(ipd.Trex)
+	if err != nil {
+		return err
+	}
+	pats := make([][]mp4.SubSamplePattern, len(fss))
+	for i := range fss {
+		if pats[i], err = ipd.ProtFunc(fss[i].Data, ipd.Scheme); err != nil {
+			return err
+		}
+		if (len(pats[i]) > 0) != (len(pats[0]) > 0) || ivSize+2+6*len(pats[i]) > 255 {
+			return fmt.Errorf("sub-sample layout not representable")
+		}
+	}
+	saiz, saio, senc := mp4.NewSaizBox(len(fss)), mp4.NewSaioBox(), mp4.NewSencBox(len(fss), len(fss))
+	_ = traf.AddChild(saiz)
+	_ = traf.AddChild(saio)
+	_ = traf.AddChild(senc)
+	cur := make([]byte, 16)
+	copy(cur, iv[:ivSize])
+	for i, fs := range fss {
+		if ipd.Scheme == "cenc" {
+			err = mp4.CryptSampleCenc(fs.Data, key, cur, pats[i])
+		} else {
+			err = mp4.EncryptSampleCbcs(fs.Data, key, cur, pats[i], ipd.Tenc)
+		}
+		if err != nil {
+			return err
+		}
+		siv := cp(cur[:ivSize])
+		if err := senc.AddSample(mp4.SencSample{IV: siv, SubSamples: pats[i]}); err != nil {
+			return err
+		}
+		saiz.AddSampleInfo(siv, pats[i])
+		// next sample's IV: 8-byte IVs count samples (the block counter is the other half of the counter block),
+		// 16-byte IVs advance by the number of cipher blocks
+		step := 1
+		if ivSize == 16 {
+			step = (len(fs.Data) + 15) / 16
+		}
+		for k := ivSize - 1; k >= 0 && step > 0; k-- {
+			step += int(cur[k])
+			cur[k] = byte(step)
+			step >>= 8
+		}
+	}
+	offset := uint64(8)
+	for _, c := range fr.Moof.Children {
+		if c.Type() != "traf" {
+			offset += c.Size()
+			continue
+		}
+		offset += 8
+		for _, tc := range c.(*mp4.TrafBox).Children {
+			if tc.Type() == "senc" {
+				saio.Offset[0] = int64(offset + 16)
+			}
+			offset += tc.Size()
+		}
+		break
+	}
+	return nil
+}
+
+// c20BuildPipe: one protected stream (init segment + media segments as separate buffers) from a clear fragmented file
+func c20BuildPipe(r *rand.Rand, codec string, clear []byte, vi int) *c20Input {
+	v := c20Variants[vi]
+	key, iv := make([]byte, 16), make([]byte, 16)
+	r.Read(key)
+	r.Read(iv[:v.ivSize])
+	f, err := mp4.DecodeFile(bytes.NewReader(clear))
+	if err != nil || f.Init == nil {
+		return nil
+	}
+	var payload [][]byte
+	for _, s := range f.Segments {
+		for _, fr := range s.Fragments {
+			fss, _ := fr.GetFullSamples(f.Init.Moov.Mvex.Trex)
+			for _, fs := range fss {
+				payload = append(payload, cp(fs.Data))
+			}
+		}
+	}
+	kid := make([]byte, 16)
+	r.Read(kid)
+	ipd, err := mp4.InitProtect(f.Init, key, iv, v.scheme, mp4.UUID(kid), nil)
+	if err != nil {
+		return nil
+	}
+	switch {
+	case v.scheme == "cenc":
+		ipd.Tenc.DefaultPerSampleIVSize = byte(v.ivSize)
+	case v.perSample:
+		ipd.Tenc.DefaultPerSampleIVSize, ipd.Tenc.DefaultConstantIV = byte(v.ivSize), nil
+	default:
+		ipd.Tenc.DefaultConstantIV = cp(iv[:v.ivSize]) // decryption zero-pads a shorter constant IV, as EncryptFragment does
+	}
+	in := &c20Input{name: "pipe-" + v.name + "-" + codec, key: key, scheme: v.scheme, kind: "pipe", clearDigest: digest(payload...)}
+	var ib bytes.Buffer
+	if f.Init.Encode(&ib) != nil {
+		return nil
+	}
+	in.init = ib.Bytes()
+	// media segments: the fragments are cut into buffers of 1..2 fragments
+	var sb, cb bytes.Buffer
+	n := 0
+	for _, s := range f.Segments {
+		for _, fr := range s.Fragments {
+			if fr.Encode(&cb) != nil {
+				return nil
+			}
+			if v.api || !v.perSample {
+				err = mp4.EncryptFragment(fr, key, iv[:v.ivSize], ipd)
+			} else {
+				err = c20EncryptFragment(fr, key, iv, v.ivSize, ipd)
+			}
+			if err != nil || fr.Encode(&sb) != nil {
+				return nil
+			}
+			if v.perSample {
+				iv[v.ivSize-1] += 0x10 // a fresh IV range for the next fragment (a constant IV stays)
+			}
+			if n++; n == 2 || r.Intn(2) == 0 {
+				in.segs, in.clearSegs = append(in.segs, cp(sb.Bytes())), append(in.clearSegs, cp(cb.Bytes()))
+				sb.Reset()
+				cb.Reset()
+				n = 0
+			}
+		}
+	}
+	if sb.Len() > 0 {
+		in.segs, in.clearSegs = append(in.segs, cp(sb.Bytes())), append(in.clearSegs, cp(cb.Bytes()))
+	}
+	return in
 }
 
 // ---- inputs ----
@@ -309,6 +662,15 @@ func c20BuildInputs(r *rand.Rand, thorough bool) []*c20Input {
 			}
 			ins = append(ins, &c20Input{name: scheme + "-" + src.codec, data: eb.Bytes(), key: key, scheme: scheme, kind: "frag"})
 		}
+		for vi := range c20Variants {
+			if in := c20BuildPipe(r, src.codec, clear, vi); in != nil {
+				ins = append(ins, in)
+				if !c20Variants[vi].api { // the IV layouts InitProtect does not write, also as one file (init + media segments)
+					ins = append(ins, &c20Input{name: c20Variants[vi].name + "-" + src.codec, data: bytes.Join(append([][]byte{in.init}, in.segs...), nil),
+						key: cp(in.key), scheme: in.scheme, kind: "frag"})
+				}
+			}
+		}
 	}
 	// AC-3 / E-AC-3 init segments: same acmod, different LFE / channel location bits
 	for _, v := range [][3]byte{{2, 0, 0}, {2, 1, 0}, {7, 0, 0}, {7, 1, 0}, {7, 1, 1}, {7, 0, 1}} {
@@ -351,6 +713,9 @@ func c20BuildInputs(r *rand.Rand, thorough bool) []*c20Input {
 				ins = append(ins, &c20Input{name: fmt.Sprintf("box-%s@%d-%s", w.typ, w.off, in.name), data: cp(in.data[w.off : w.off+w.size]), kind: "box"})
 			}
 		}
+	}
+	for _, in := range ins {
+		in.seal()
 	}
 	return ins
 }
@@ -398,6 +763,14 @@ func c20Tasks(ins []*c20Input) []c20Task {
 			for _, p := range []string{"rd", "sr"} {
 				ts = append(ts, c20Task{"chaninfo/" + p, in}, c20Task{"info-enc/" + p + "/all:1", in})
 			}
+		case "pipe":
+			for i, ip := range []string{"rd", "sr", "boxrd", "boxsr"} {
+				for j, sp := range []string{"rd", "sr"} {
+					ts = append(ts, c20Task{"pipe/" + ip + "/" + sp + "/" + []string{"frag", "seg"}[(i+j)%2], in})
+				}
+			}
+			ts = append(ts, c20Task{"pipe/sr/sr/seg", in}, c20Task{"pipe/boxsr/sr/frag", in})
+			ts = append(ts, c20Task{"pipeenc/sr/sr", in}, c20Task{"pipeenc/boxsr/rd", in}, c20Task{"pipeenc/rd/sr", in})
 		case "frag":
 			for _, p := range []string{"rd", "sr"} {
 				ts = append(ts, c20Task{"info-enc/" + p + "/all:1", in}, c20Task{"info-enc/" + p + "/moof:1,senc:1", in}, c20Task{"samples/" + p, in})
@@ -428,10 +801,9 @@ func execC20(req string) string {
 	ins := c20BuildInputs(rand.New(rand.NewSource(seed)), false)
 	for _, in := range ins {
 		if in.name == f[2] {
-			before := digest(in.data)
 			out := runTask(c20Task{f[1], in})
-			if digest(in.data) != before {
-				return out + " INPUT-MUTATED"
+			if m := in.mutated(); m != "" {
+				return out + " INPUT-MUTATED " + m
 			}
 			return out
 		}
@@ -514,17 +886,13 @@ func genC20(c *Ctx) {
 	// child: the actual scenarios
 	ins := c20BuildInputs(c.R, c.Thorough())
 	tasks := c20Tasks(ins)
-	inDigest := map[string]string{}
 	for _, in := range ins {
-		inDigest[in.name] = digest(in.data)
 		c.Count("input=" + in.kind + "/" + in.scheme)
 	}
-	ivTableDigest := digest(c20IVTable)
 	checkIVTable := func(when string) {
-		if d := digest(c20IVTable); d != ivTableDigest {
-			c.Fail("C20-input-mutated ivtable", "the shared table of initialization vectors (read-only input of the encryption calls) was written to", "ivtable "+when+" seed "+fmt.Sprint(c.Seed), d, ivTableDigest)
-			copy(c20IVTable, []byte{0xa1, 2, 3, 4, 5, 6, 7, 8, 0xb1, 12, 13, 14, 15, 16, 17, 18, 0xc1, 22, 23, 24, 25, 26, 27, 28, 0xd1, 32, 33, 34, 35, 36, 37, 38,
-				0xe1, 42, 43, 44, 45, 46, 47, 48, 0xf1, 52, 53, 54, 55, 56, 57, 58, 0x91, 62, 63, 64, 65, 66, 67, 68, 0x81, 72, 73, 74, 75, 76, 77, 78})
+		if !bytes.Equal(c20IVTable, c20IVTableRef) {
+			c.Fail("C20-input-mutated ivtable", "the shared table of initialization vectors (read-only input of the encryption calls) was written to", "ivtable "+when+" seed "+fmt.Sprint(c.Seed), hx(c20IVTable), hx(c20IVTableRef))
+			copy(c20IVTable, c20IVTableRef)
 		}
 	}
 	// solo results
@@ -538,15 +906,20 @@ func genC20(c *Ctx) {
 		}
 		if strings.Contains(solo[i], "err") {
 			c.Count("solo-error")
+			if t.in.kind == "pipe" {
+				c.Count("pipe-solo-error " + t.in.name + ": " + clip(solo[i]))
+			}
+		}
+		if strings.HasPrefix(t.op, "pipe/") && !strings.Contains(solo[i], "err") {
+			c.Count(fmt.Sprintf("pipe-decrypts-to-clear=%v", strings.HasSuffix(solo[i], "clear=true")))
 		}
 		if i < 4 {
 			c.Sample(fmt.Sprintf("task %s %s %d -> %s", t.op, t.in.name, c.Seed, solo[i]))
 		}
-		if d := digest(t.in.data); d != inDigest[t.in.name] {
-			c.Fail("C20-input-mutated "+strings.Join(strings.Split(t.op, "/")[:2], "/"), "a task running alone wrote into the shared input bytes (its decoded structure aliases the caller's buffer and an in-place operation mutated it)", fmt.Sprintf("task %s %s %d", t.op, t.in.name, c.Seed), "input digest "+d, "input digest "+inDigest[t.in.name])
+		if m := t.in.mutated(); m != "" {
+			c.Fail("C20-input-mutated "+strings.Join(strings.Split(t.op, "/")[:2], "/"), "a task running alone wrote into the shared input bytes or into the capacity behind them (its decoded structure aliases the caller's buffer and a later operation wrote or appended through it)", fmt.Sprintf("task %s %s %d", t.op, t.in.name, c.Seed), m, "shared input and the guard bytes behind each slice unchanged")
 			// restore for the following tasks
 			*t.in = *rebuildInput(c.Seed, c.Thorough(), t.in.name)
-			inDigest[t.in.name] = digest(t.in.data)
 		}
 	}
 	checkIVTable("after the solo runs")
@@ -587,10 +960,9 @@ func genC20(c *Ctx) {
 		}
 		checkIVTable(fmt.Sprintf("after concurrent round %d", round))
 		for _, in := range ins {
-			if d := digest(in.data); d != inDigest[in.name] {
-				c.Fail("C20-input-mutated-concurrent "+in.kind+"/"+in.scheme, "the shared input bytes changed during the concurrent round", fmt.Sprintf("round %d input %s seed %d", round, in.name, c.Seed), d, inDigest[in.name])
+			if m := in.mutated(); m != "" {
+				c.Fail("C20-input-mutated-concurrent "+in.kind+"/"+in.scheme, "the shared input bytes (or the capacity behind them) changed during the concurrent round", fmt.Sprintf("round %d input %s seed %d", round, in.name, c.Seed), m, "shared input and the guard bytes behind each slice unchanged")
 				*in = *rebuildInput(c.Seed, c.Thorough(), in.name)
-				inDigest[in.name] = digest(in.data)
 			}
 		}
 	}
